@@ -10,6 +10,11 @@ import (
 )
 
 func String(s string) Key {
+	if len(s) == 0 {
+		// The data pointer of an empty string may be nil and a nil key
+		// is "no key" to KeySet. The empty string is a key like any other.
+		return Key{}
+	}
 	// Key is never mutated, so it's safe to just cast.
 	return unsafe.Slice(unsafe.StringData(s), len(s))
 }
